@@ -13,7 +13,8 @@
    [svg_colour_ok]: a colour value an anstyle::Color can hold). *)
 From Coq Require Import NArith List Bool.
 From AV Require Import Generated.Style Generated.Palette Generated.Svg Spec.Sgr Spec.Lossy Spec.SvgSpec
-  Model.Base Model.Parser Model.Wincon Model.Lossy Model.Svg Proofs.Svg Generated.WinconFn Proofs.WinconGen.
+  Model.Base Model.Parser Model.Wincon Model.Lossy Model.Svg Proofs.Svg Generated.WinconFn Proofs.WinconGen
+  Generated.SvgFn Proofs.SvgGen.
 Import ListNotations.
 Local Open Scope N_scope.
 
@@ -153,3 +154,52 @@ Proof. eexists. split; [vm_compute; reflexivity|]. repeat split; vm_compute; ref
 Theorem c14_translated_extract_next_is_model :
   forall bs p c, g_extract_next bs p c = extract_next bs p c.
 Proof. exact translated_extract_next_is_model. Qed.
+
+(* [svg_doc], [svg_print] and the helpers the theorems above are about are the code translated from
+   crates/anstyle-svg/src/lib.rs (Generated/SvgFn.v, tools/gen_fn_svg.py).  The oracle [o] stands for
+   unicode_width, the f64 expression of the width and Term::min_width_px: what the hand model leaves to
+   its arguments [width_px] / [wf]; [svg_width_px o lines] is render_svg's width arithmetic over it. *)
+Theorem c14_translated_render_svg_is_model :
+  forall o t input,
+  g_svg_render o t input =
+  (styled <- svg_styled t input ;;
+   d <- svg_doc t input ;;
+   Some (svg_print (svg_width_px o (svg_split_lines styled)) (svg_o_uw o) d)).
+Proof. exact translated_render_svg_is_model. Qed.
+
+Theorem c14_translated_render_svg_prints_doc :
+  forall o t input d, svg_doc t input = Some d ->
+  exists styled, svg_styled t input = Some styled /\
+    g_svg_render o t input = Some (svg_print (svg_width_px o (svg_split_lines styled)) (svg_o_uw o) d).
+Proof. exact translated_render_svg_prints_doc. Qed.
+
+Theorem c14_translated_render_svg_panics :
+  forall o t input, svg_doc t input = None -> g_svg_render o t input = None.
+Proof. exact translated_render_svg_panics. Qed.
+
+Theorem c14_translated_split_lines_is_model :
+  forall o styled, g_svg_split_lines o styled = Some (svg_split_lines styled).
+Proof. exact g_svg_split_lines_eq. Qed.
+
+Theorem c14_translated_color_name_is_model :
+  forall o prefix c, g_svg_color_name o prefix (svg_to_color c) = svg_color_name prefix c.
+Proof. exact g_svg_color_name_eq. Qed.
+
+Theorem c14_translated_rgb_value_is_model :
+  forall o c p, g_svg_rgb_value o (svg_to_color c) p = svg_rgb_value c p.
+Proof. exact g_svg_rgb_value_eq. Qed.
+
+Theorem c14_translated_color_styles_is_model :
+  forall o styled p, g_svg_color_styles o styled p = svg_color_styles styled p [].
+Proof. exact g_svg_color_styles_eq. Qed.
+
+Theorem c14_translated_write_fg_span_is_model :
+  forall o buffer s fragment,
+  g_svg_write_fg_span o buffer s fragment = (cl <- svg_fg_classes s ;; Some (buffer ++ svg_print_fg_span (cl, fragment))).
+Proof. exact g_svg_write_fg_span_eq. Qed.
+
+Theorem c14_translated_write_bg_span_is_model :
+  forall o buffer s fragment,
+  g_svg_write_bg_span o buffer s fragment =
+  (cl <- svg_bg_classes s ;; Some (buffer ++ svg_print_bg_span (svg_o_uw o) (cl, fragment))).
+Proof. exact g_svg_write_bg_span_eq. Qed.
